@@ -127,6 +127,36 @@ def _run_conv(desc):
         ly = G.sample_to_lab(sx, sy, y0, dtyb, om)[1]
         if np.abs(ly).max() > 1e-9 * (1 + np.abs(sx).max()):
             bad(name + ":lab-y-not-zero", {"max_ly": float(np.abs(ly).max())})
+    # history: the caller's omega buffer (one array OBJECT) refilled in place between calls - every conversion that takes the angles
+    # answers for the angles now in the array: lab y of the in-beam dty is zero, and the answer equals the one for a fresh copy
+    buf = om.copy()
+    dty_b = np.full(sx.shape, 3.0 * ystep)
+    r_i, r_j = G.sample_to_recon(sx, sy, (41, 41), ystep)
+    s_i, s_j = G.sample_to_step(sx, sy, ystep)
+    convs = {"dty_values_grain_in_beam": lambda o: G.dty_values_grain_in_beam(sx, sy, y0, o),
+             "x_y_y0_omega_to_dty": lambda o: G.x_y_y0_omega_to_dty(o, sx, sy, y0),
+             "step_omega_to_dty": lambda o: G.step_omega_to_dty(s_i, s_j, o, y0, ystep),
+             "recon_omega_to_dty": lambda o: G.recon_omega_to_dty(r_i, r_j, o, y0, (41, 41), ystep),
+             "sample_to_lab": lambda o: np.array(G.sample_to_lab(sx, sy, y0, dty_b, o)),
+             "lab_to_sample": lambda o: np.array(G.lab_to_sample(sx, sy, y0, dty_b, o)),
+             "lab_to_step": lambda o: np.array(G.lab_to_step(sx, sy, y0, dty_b, o, ystep)),
+             "step_to_lab": lambda o: np.array(G.step_to_lab(s_i, s_j, y0, dty_b, o, ystep))}
+    for fill in (None, lambda b: b.__iadd__(180.0), lambda b: b.__imul__(-1.0), lambda b: b.__setitem__(slice(None), om[::-1] + 37.5)):
+        if fill is not None:
+            fill(buf)
+        gots = {name: fn(buf) for name, fn in convs.items()}        # the caller only ever passes its one buffer ...
+        wants = {name: fn(buf.copy()) for name, fn in convs.items()}
+        for name, fn in convs.items():
+            fn(buf)                                                    # ... and the last call before the next refill used it too
+        for name, fn in convs.items():
+            got, want = gots[name], wants[name]
+            if not np.array_equal(got, want):
+                bad(name + ":stale-answer-after-the-omega-array-was-refilled-in-place", {"max_diff": float(np.abs(np.asarray(got) - np.asarray(want)).max())})
+            elif name.endswith("dty") or name.startswith("dty"):
+                ly = G.sample_to_lab(sx, sy, y0, got, buf.copy())[1]
+                if np.abs(ly).max() > 1e-9 * (1 + np.abs(sx).max()):
+                    bad(name + ":lab-y-not-zero[refilled omega array]", {"max_ly": float(np.abs(ly).max())})
+        sh.evaluations += len(convs)
     # dtyi masks: the six variants agree, true on the computed bin, false one bin away
     ymin = -20.0 * ystep
     dtyb = G.dty_values_grain_in_beam(sx, sy, y0, om)
@@ -239,6 +269,18 @@ def _run_recon(desc):
                             sh.violation("reconstruction-not-where-geometry-predicts", case, {"predicted": [float(ri), float(rj)], "found": [ci, cj],
                                                                                              "error_px": err, "recon_shape": list(rec.shape)})
                         sh.counters["max_centroid_error_milli_px"] = max(sh.counters.get("max_centroid_error_milli_px", 0), int(err * 1000))
+                        if extra == 0 and y0s in (2.5, -3.3):
+                            # the other interpolation schemes of iradon (run_iradon always asks for "linear"), same shift and pad
+                            for kind in ("nearest", "cubic"):
+                                rec2 = R.iradon(sino, theta=omega, output_size=ny + pad, projection_shifts=np.full(sino.shape, shift),
+                                                filter_name="hamming", interpolation=kind, workers=1)
+                                c2i, c2j = centroid_of_max(rec2)
+                                err2 = float(np.hypot(c2i - ri, c2j - rj))
+                                if rec2.shape != rec.shape or not np.isfinite(err2) or err2 > 1.5:
+                                    sh.violation("reconstruction-not-where-geometry-predicts[interpolation=%s]" % kind, dict(case, interpolation=kind),
+                                                 {"predicted": [float(ri), float(rj)], "found": [c2i, c2j], "error_px": err2})
+                                sh.counters["max_centroid_error_milli_px[%s]" % kind] = max(sh.counters.get("max_centroid_error_milli_px[%s]" % kind, 0), int(err2 * 1000))
+                                sh.evaluations += 1
                         if extra == 0 and rng_name == "0-180":
                             # the module's own locator (blob search on the image, then recon -> sample): whole-pixel resolution, so a
                             # looser bound; what it guards is the conversion back to sample coordinates
